@@ -11,10 +11,10 @@ set -u
 N=$1; SRC=$2; OUT=$3; shift 3
 ITEMS=("$@")
 : > "$OUT"
-mkdir -p /tmp/lanes
+mkdir -p ${LANEROOT:-/tmp/lanes}
 lane() {
   local i=$1; shift
-  local L=/tmp/lanes/$i
+  local L=${LANEROOT:-/tmp/lanes}/$i
   mkdir -p "$L"
   rsync -a --delete --exclude .git --exclude .work "$SRC"/ "$L/verif/"
   if [ ! -d "$L/repo" ]; then git -C /repo worktree add --detach "$L/repo" HEAD >/dev/null 2>&1; fi
